@@ -328,6 +328,8 @@ impl<Error> StreamingSoundHandle<Error> {
 	/// Returns an error that occurred while decoding audio, if any.
 	#[must_use]
 	pub fn pop_error(&mut self) -> Option<Error> {
+		#[cfg(feature = "verif-hooks")]
+		crate::verif::sync_point("stream.error.pop");
 		self.error_consumer.pop().ok()
 	}
 }
